@@ -247,10 +247,22 @@ func nearMisses() []ParseCase {
 		}
 	}
 	rej("@ outside a filter", "@", "@.a", "$.a[@]", "$ ? (@ > 1).b[@.c]", "$[@.a to 1]", "@ == 1", "exists(@)", "$.a ? (@ > 1) == @", "-@", "(@).a", "$ ? (@.a > 1) ? (@.b > 1)[@]")
+	rej("@ or last misplaced after a variable or literal head", "$v[@]", "$v ? (last > 0)", `"abc" ? (last == 1)`, "1.5 ? (@ > last)", "$.a == $v[@]", "(1).a[@]", "true ? (last == 1)", "$v.a[@.b]", `$"v"[last]."a" ? (@ == last)`, "null[@]", "(1 + 2)[@]", "($ == 1)[@]", "(-$)[@]", "$v ? (@ > 1)[@]", `("a" starts with "a").x[@]`)
+	acc("@ / last well placed after a variable or literal head", "$v ? (@ > 1)", "$v[last]", `"abc" ? (@ == "abc")`, "(1)[last]", "$v[$v[last]]")
 	acc("@ inside a filter", "$ ? (@ > 1)", "$ ? (@.a[@.b] > 1)", "$ ? (exists(@ ? (@ > 1)))", "$[0 ? (@ > 1)]")
 	rej("last outside a subscript", "last", "$.a ? (@ > last)", "$.last()", "$ ? (last > 1)", "last + 1", "$[1].a[2].b.c ? (@ == last)", "$.a.b ? (@[last] > last)")
 	acc("last inside a subscript", "$[last]", "$[last - 1]", "$[0 to last]", "$[$.a[last]]", "$[last ? (@ > 1)]", "$ ? (@[last] > 1)", "$[1 ? (@ > last)]")
 	rej("malformed number", "1__0", "1_", "0x", "0x_1", "0b2", "0o8", "08", "00", "012", "1e", "1e+", "1e-", "1a", "0x1p3", "1.e", "0b", "0o", "0xg", "1_.5", "1._5", "1e_5", "1e5_", "0_1", "_1 + 1", "1.5.5", "0b1e5", "0x1.5", "1..2", "$[1a]", "0B", "1E", ".e1", "1__e1")
+	for _, ip := range []string{"0", "7", "10", "1_0", ""} {
+		for _, fp := range []string{"", ".", ".5", ".05", ".5_0", ".0"} {
+			for _, ex := range []string{"", "e8", "E+9", "e-9", "e08", "e1_0", "E0", "e-08"} {
+				if ip == "" && (fp == "" || fp == ".") {
+					continue
+				}
+				acc("decimal number grid", ip+fp+ex, "$[" + ip+fp+ex + "]", "-" + ip+fp+ex)
+			}
+		}
+	}
 	acc("number forms", "1_000", "0x1F", "0X1f", "0b101", "0B11", "0o17", "0O7", ".5", "5.", "1.5e-3", "1E+2", "1e5", "0", "0.5", "0.", "1_0.5", "1.2_5", "1e1_0", "0x1_F", "0xFFFFFFFF")
 	neu("literal outside the int64/float64 range: accept or reject, never panic", "1e400", "-1e400", "1e99999", "$[1e400]", "1.8e308", "9223372036854775808", "-9223372036854775808", "0xFFFFFFFFFFFFFFFFF", "$.decimal(99999999999999999999)", "$[99999999999999999999]", "$.**{99999999999999999999}", "$.time(99999999999999999999)", "0b11111111111111111111111111111111111111111111111111111111111111111", "1e-400", "$.**{4294967295}", "$.**{4294967296 to 2}")
 	neu("left open by the documented syntax", `$ like_regex "(" flag "xq"`, "$.**{2 to 1}", `$ like_regex "\\pL"`, `"\u{110000}"`)
